@@ -212,28 +212,22 @@ void h_fe_add(void) {
     if (ma == 16 && mb == 16) REACH("fe_add 16+16");
 }
 void h_fe_mul_int(void) {
-    /* field.h: "a must be an integer constant expression in [0,32]; the magnitude of r times a must not exceed 32".
-     * The whole domain of a is enumerated with a CONSTANT multiplier per call (as in every real call site); the
-     * element and its magnitude stay symbolic. */
-    INPUT(secp256k1_fe, a); INPUT(int, m);
-    secp256k1_fe r; int k;
-    __CPROVER_assume(m >= 0 && m <= 32 && sa_fe_mag(&a, m)); FE_FIELDS(a, m, 0);
-    for (k = 0; k <= 32; k++) {
-        if (m * k <= 32) {
-            r = a;
-            secp256k1_fe_mul_int_unchecked(&r, k);
-            /* k * value, distributed over the limb sum: k * sum n[i] 2^(w i) = sum (k n[i]) 2^(w i), every k n[i] computed
-             * in 128 bits and required to fit the limb type (the solver is not asked to re-prove distributivity over
-             * 320-bit adder trees: that miter did not finish in 300 s) */
-            { secp256k1_fe e = a; int i, fits = 1;
-              for (i = 0; i < SA_FE_NL; i++) { unsigned __int128 pr = (unsigned __int128)a.n[i] * (unsigned)k; e.n[i] = (sa_felimb)pr; fits = fits && (pr == (unsigned __int128)e.n[i]); }
-              __CPROVER_assert(fits, "C05 fe_mul_int: no limb overflows");
-              __CPROVER_assert(sa_fe_limbs_equal(&r, &e), "C05 fe_mul_int: value is r * a (every limb is a times the input limb, exactly)"); }
-            __CPROVER_assert(sa_fe_mag(&r, m * k), "C05 fe_mul_int: magnitude multiplied by a");
-            if (m == 4 && k == 8) REACH("fe_mul_int 4*8");
-            if (m == 1 && k == 32) REACH("fe_mul_int 1*32");
-        }
-    }
+    /* field.h: "a must be ... in [0,32]; the magnitude of r times a must not exceed 32".
+     * Value: k * sum n[i] 2^(w i) = sum (k n[i]) 2^(w i), so "value is r * a" is stated per limb: the machine product
+     * n[i] * k in the limb type (C semantics, the verifier's own multiplier) together with the proof, in 128 bits, that
+     * this product does not wrap.  (Measured: asking the solver for fval(r) == k fval(a) directly - a 320-bit
+     * distributivity miter - did not finish in 300 s in any of four formulations.) */
+    INPUT(secp256k1_fe, a); INPUT(int, m); INPUT(int, k);
+    secp256k1_fe r, e; int i, fits = 1;
+    __CPROVER_assume(m >= 0 && m <= 32 && k >= 0 && k <= 32 && m * k <= 32 && sa_fe_mag(&a, m)); FE_FIELDS(a, m, 0);
+    r = a; e = a;
+    secp256k1_fe_mul_int_unchecked(&r, k);
+    for (i = 0; i < SA_FE_NL; i++) { unsigned __int128 pr = (unsigned __int128)a.n[i] * (unsigned)k; e.n[i] = a.n[i] * (sa_felimb)k; fits = fits && ((pr >> (8 * sizeof(sa_felimb))) == 0); }
+    __CPROVER_assert(fits, "C05 fe_mul_int: no limb overflows");
+    __CPROVER_assert(sa_fe_limbs_equal(&r, &e), "C05 fe_mul_int: value is r * a (every limb is a times the input limb)");
+    __CPROVER_assert(sa_fe_mag(&r, m * k), "C05 fe_mul_int: magnitude multiplied by a");
+    if (m == 4 && k == 8) REACH("fe_mul_int 4*8");
+    if (m == 1 && k == 32) REACH("fe_mul_int 1*32");
 }
 void h_fe_half(void) {
     INPUT(secp256k1_fe, a); INPUT(int, m);
